@@ -27,6 +27,10 @@ const (
 	ERR   Outcome = "err"   // error reply, not applied
 	STALL Outcome = "stall" // no reply until well past the client's deadline, not applied
 	DROP  Outcome = "drop"  // connection closed without a reply, not applied
+	// DROPWAIT: like DROP, and the controller's r/w deadline is long enough (4 s) for
+	// its rpc client to get to the in-flight request itself: the client waits 2 s after
+	// a transport error before it ends the requests that were in flight
+	DROPWAIT Outcome = "dropwait"
 	// DISKERR: the replica's own write to its head file fails (the descriptor is
 	// swapped for a read-only one for the duration of the call): the failure
 	// happens inside Replica.WriteAt, below everything the replica does around a write
@@ -626,7 +630,7 @@ func (d *faultDP) fault(kind string, o Outcome) error {
 		d.n.markSlow()
 		time.Sleep(d.n.StallFor)
 		return fmt.Errorf("injected %s stall on %s", kind, d.n.Name)
-	case DROP:
+	case DROP, DROPWAIT:
 		d.n.markSlow()
 		d.conn.Close()
 		return fmt.Errorf("injected %s connection drop on %s", kind, d.n.Name)
